@@ -5,7 +5,7 @@ namespace PhyVerif.C13
 /-- The shape facts the loader asserts on every dataset it accepts (model.py:351-403): the per-spike
 vectors have one length, the per-channel vectors have one length. -/
 def ViewOK (v : View) : Prop :=
-  v.spikeClusters.length = v.samples.length ∧ v.spikeTemplates.length = v.samples.length ∧
+  v.times.length = v.samples.length ∧ v.spikeClusters.length = v.samples.length ∧ v.spikeTemplates.length = v.samples.length ∧
   v.amplitudes.length = v.samples.length ∧ v.channelProbes.length = v.channelMap.length
 
 /-- every object file (`spikes.* / clusters.* / templates.* / channels.*`) of a directory has, as first
